@@ -520,22 +520,18 @@ def dfs (es : List Entry) (orig : Bytes) : List Key → List Bytes → Bool → 
         else []
 
 /-- split on '/' (the repeated `strings.Index(path, "/")` of `dfs`): always at least one component -/
-def splitSlash : Bytes → List Bytes
-  | [] => [[]]
-  | c :: r =>
-    if c == cSlash then [] :: splitSlash r
-    else match splitSlash r with
-      | [] => [[c]]
-      | x :: xs => (c :: x) :: xs
+def splitSlash (p : Bytes) : List Bytes := splitOnByte cSlash p
+
+/-- `strings.TrimPrefix(path, "/")` -/
+def trimLeadingSlash (path : Bytes) : Bytes :=
+  match path with
+  | c :: r => if c == cSlash then r else path
+  | [] => path
 
 /-- `Trie.Find`: permitted results -/
 def Trie.find (t : Trie) (method : Bytes) (path : Bytes) : List Entry :=
   let es := t.filter (fun e => e.method == method)
   if es.isEmpty then []
-  else
-    let p := match path with
-      | c :: r => if c == cSlash then r else path
-      | [] => path
-    dfs es p [] (splitSlash p) false
+  else dfs es (trimLeadingSlash path) [] (splitSlash (trimLeadingSlash path)) false
 
 end GB.C20
